@@ -131,6 +131,7 @@ class Interp:
         self.contract = None
         self.ghost = {}
         self.call_stack = []
+        self.ghost_defs = {}
 
     # ------------------------------------------------------------------------------------------------------------
     # fresh values
@@ -182,6 +183,16 @@ class Interp:
                 return SV('ext', ty[1], extra={})
             if k == 'clsref':
                 return SV('cls', ty[1])
+            if k == 'source':
+                # E1: a finite source = fixed byte string T with read offset R
+                Tt = z3.Const(p.fresh_name(base + '.T'), T.Bytes)
+                R0 = z3.Int(p.fresh_name(base + '.R'))
+                p.assume(z3.And(R0 >= 0, R0 <= T.blen(Tt)))
+                if ty[1] == 'socket':
+                    p.assume(R0 == 0)       # nothing has been received yet; T is everything the peer will ever send
+                from . import externals
+                externals.USED.add('E1')
+                return SV('ext', 'source', extra={'source_kind': ty[1], 'T': mk_bytes(Tt), 'R': mk_int(R0)})
             if k == 'func':
                 return SV('func', BuiltinRef('contractfunc:' + ty[1]), extra={'contract': ty[1],
                                                                              'id': z3.Const(p.fresh_name(base), TY.Obj)})
@@ -583,6 +594,11 @@ class Interp:
         v = frame.lookup(node.id)
         if v is not None:
             return v
+        if self.spec and node.id == 'out' and self.path.yielded is not None:
+            return self.path.yielded
+        if self.spec and self.contract is not None and node.id in self.ghost_defs:
+            from .contract import parse_expr
+            return self.eval(parse_expr(self.ghost_defs[node.id]), frame)
         v = self.registry.resolve_global(self, node.id, frame)
         if v is not None:
             return v
@@ -636,9 +652,16 @@ class Interp:
 
     def ex_BoolOp(self, node, frame):
         if self.spec:
-            vals = [self.eval(v, frame) for v in node.values]
-            ts = [self.truth(v) for v in vals]
-            return mk_bool(z3.And(*ts) if isinstance(node.op, ast.And) else z3.Or(*ts))
+            ts = []
+            is_and = isinstance(node.op, ast.And)
+            for vnode in node.values:
+                t = z3.simplify(self.truth(self.eval(vnode, frame)))
+                if is_and and z3.is_false(t):
+                    return mk_bool(False)
+                if not is_and and z3.is_true(t):
+                    return mk_bool(True)
+                ts.append(t)
+            return mk_bool(z3.And(*ts) if is_and else z3.Or(*ts))
         last = None
         for i, vnode in enumerate(node.values):
             last = self.eval(vnode, frame)
